@@ -24,6 +24,9 @@ TIE, re-established on every run:
    were written), the log directory after close; against the model: the exact sequence of internal
    iput/wait calls per rank (batches, rounds, trailing participation waits), request ids, statuses, record
    counts, read values, final content, and the metadata log entries left in retained log files.
+   Scenario family "large staged volume" (harness/c12_big.c): 1-4 ranks stage 9-17 MiB each between two flushes (more than
+   one 8 MiB block of a node-shared log file; per-process logs and the default driver as controls), flush by wait_all / sync /
+   get / close, every element is verified inside the harness through the open handle and, after close, through the default driver.
 ORACLE = the property text evaluated on the burst-buffer run alone."""
 import os, re, struct, ast, shutil, concurrent.futures as cf
 from pnc import common as C
@@ -560,6 +563,69 @@ def run_model(cases, work, jobs=8, shard=60):
     return res
 
 
+# ---------------------------------------------------------------------------------- large staged volume
+BIG = os.path.join(C.VERIF, 'harness', 'c12_big.c')
+
+
+def big_configs(tier):
+    """(np, logs: 'shared' | 'perproc' | 'default', mode, flush buffer bytes, base MiB, step MiB): every rank stages
+    base + rank*step MiB between two flushes, i.e. more than one 8 MiB block of a node-shared log file"""
+    cfgs = [(2, 'shared', 'w', 0, 9, 4), (3, 'shared', 's', 6291456, 9, 4), (2, 'shared', 'g', 0, 10, 7), (2, 'shared', 'c', 3145728, 9, 8),
+            (2, 'perproc', 'w', 0, 9, 4), (2, 'default', 's', 0, 9, 4)]
+    if tier != 'quick':
+        cfgs += [(3, 'shared', 'w', 0, 9, 4), (4, 'shared', 'g', 8388608, 9, 2), (2, 'shared', 's', 0, 16, 1), (3, 'shared', 'c', 0, 9, 4),
+                 (1, 'shared', 'w', 0, 17, 0), (3, 'perproc', 's', 4194304, 9, 4), (2, 'default', 'w', 0, 9, 4)]
+    return cfgs
+
+
+def run_big(cfg, exe, work, ix, timeout=240):
+    np_, logs, mode, fb, base, step = cfg
+    d = os.path.join(work, 'big%d' % ix); logdir = os.path.join(d, 'logs'); os.makedirs(logdir, exist_ok=True)
+    args = [os.path.join(d, 'big.nc'), '-' if logs == 'default' else logdir, '1' if logs == 'shared' else '0', mode, str(fb), str(base), str(step)]
+    io = os.environ.get('C12_MPIIO', MPIIO)
+    if np_ > 1:
+        rc, out = C.mpirun(np_, exe, args, env={'OMPI_MCA_io': io}, timeout=timeout, cwd=d)
+    else:
+        rc, out = C.sh([exe] + args, timeout=timeout, cwd=d, env=dict(os.environ, OMPI_MCA_io=io))
+    left = sorted(os.listdir(logdir))
+    shutil.rmtree(d, ignore_errors=True)
+    return rc, out, left
+
+
+def judge_big(cfg, rc, out, left):
+    """ORACLE on the run's own observations: every element a rank staged is read back (through the burst-buffer handle
+    after the flush trigger, and from the destination file through the default driver after close) with its value"""
+    np_, logs, mode, fb, base, step = cfg
+    F = []
+    name = 'np=%d logs=%s trigger=%s flushbuf=%d staged=%d+%d*rank MiB' % (np_, logs, dict(w='wait_all', s='sync', g='get', c='close')[mode], fb, base, step)
+    pre = 'bb:bigvolume' if logs != 'default' else 'ref:bigvolume'
+    if rc == -9:
+        F.append((pre + ':hang', name + ': run did not terminate')); return F
+    if rc != 0:
+        F.append((pre + ':crash', name + ': rc %d %s' % (rc, out[-300:]))); return F
+    seen = set()
+    for l in out.split('\n'):
+        t = l.split()
+        if not t:
+            continue
+        if t[0] == 'E':
+            F.append((pre + ':rc:' + t[2], '%s: rank %s %s returned %s' % (name, t[1], t[2], t[3])))
+        elif t[0] == 'R':
+            seen.add((int(t[1]), t[2]))
+            if int(t[4]) != 0:
+                F.append(('%s:%s' % (pre, {'own': 'read-own-writes', 'next': 'visible-after-sync', 'final': 'final-content'}[t[2]]),
+                          '%s: rank %s %s: %s of %s elements wrong, first at index %s: read %s expected %s'
+                          % (name, t[1], {'own': 'read-back through the open handle', 'next': "next rank's data after sync",
+                                          'final': 'destination file after close (default driver)'}[t[2]], t[4], t[3], t[5], t[6], t[7])))
+    for q in range(np_):
+        for ph in (['final'] if mode == 'c' else ['own', 'final']) + (['next'] if mode == 's' and np_ > 1 else []):
+            if (q, ph) not in seen:
+                F.append((pre + ':no-observation', '%s: rank %d phase %s missing' % (name, q, ph)))
+    if logs != 'default' and left:
+        F.append((pre + ':logfiles:left', '%s: log directory after close: %s' % (name, left)))
+    return F
+
+
 # ---------------------------------------------------------------------------------- the check
 HINTS = [0, 0, 1, 1, 8, 16, 24, 64, 4096]
 
@@ -622,6 +688,25 @@ def run(ctx):
     work = C.scratch('c12.')
     nrand = int(os.environ.get('C12_NRAND', 130 if ctx.tier == 'quick' else 1800))
     progs = make_programs(ctx, nrand)
+    # scenario family "large staged volume" (own C harness: buffers are compared there, only verdict lines come back)
+    bigexe = C.build_c(libbb, [BIG], 'c12_big')
+    bigcfgs = big_configs(ctx.tier)
+    with cf.ThreadPoolExecutor(max_workers=2) as ex:
+        bigres = list(ex.map(lambda ic: run_big(ic[1], bigexe, work, ic[0]), enumerate(bigcfgs)))
+    nbigbad = 0
+    for cfg, (rc, out, left) in zip(bigcfgs, bigres):
+        if rc == -9:                          # loaded machine: once more, alone
+            rc, out, left = run_big(cfg, bigexe, work, 99, timeout=600)
+        Fb = judge_big(cfg, rc, out, left)
+        ctx.count('large staged volume %s\n%s' % (cfg, out[-600:]), nontrivial=True)
+        for key, what in Fb[:1]:
+            nbigbad += 1
+            rep = dict(bigcase=list(cfg), finding=what, all_findings=[w for _, w in Fb][:8], output=out[-2000:])
+            if key.startswith('ref:'):
+                ctx.violation('corr_C12_reference (large staged volume, default driver): ' + what, rep, no_input=True)
+            else:
+                ctx.violation('burst-buffer run violates the property: ' + what, rep, key=key)
+    ctx.cov['large_volume_cases'] = [list(c) for c in bigcfgs]
     results, nretry = run_all(progs, work, bbexe, deexe)
     ctx.cov['programs_rerun_after_watchdog'] = nretry
     ctx.cov['mpi_io_layer'] = os.environ.get('C12_MPIIO', MPIIO)
@@ -675,6 +760,12 @@ def run(ctx):
 def replay(ctx, d):
     """re-run a stored program (scripts are stored verbatim) and print what the two drivers observed"""
     libde = C.libdir(); libbb = C.libdir('bb')
+    if d.get('bigcase'):
+        cfg = tuple(d['bigcase'])
+        rc, out, left = run_big(cfg, C.build_c(libbb, [BIG], 'c12_big'), C.scratch('c12r.'), 0)
+        F = judge_big(cfg, rc, out, left)
+        print(out[-1500:]); print('\n'.join(w for _, w in F) or 'large staged volume case passes')
+        return 1 if F else 0
     deexe = S.impl_exe(libde)
     bbexe = C.build_c(libbb, [S.IMPL_SRC, HOOK], 'c12_impl', extra=['-Dmain=pnc_impl_main'])
     work = C.scratch('c12r.')
